@@ -592,6 +592,14 @@ def remap_by_types(
 
             return None
 
+        @staticmethod
+        def _link_to_original(new_node: ast.AST, replaced_node: ast.AST):
+            """If a callback handed back a different call, remember which call of the user's
+            lambda it stands for so the change can be carried into nested lambdas."""
+            if new_node is not replaced_node and isinstance(new_node, ast.Call):
+                original = getattr(replaced_node, "_old_ast", replaced_node)
+                new_node._old_ast = original  # type: ignore
+
         def process_method_callbacks(self, obj_type: type, node: ast.AST, call_method) -> ast.Call:
             """Call any callbacks that the object has registered. This might change
             the ast.
@@ -607,9 +615,11 @@ def remap_by_types(
             for base_obj in [obj_type, call_method]:
                 attr = getattr(base_obj, "_func_adl_type_info", None)
                 if attr is not None:
+                    original_node = node
                     r_stream, node = attr(self.stream, node)
                     assert isinstance(node, ast.AST)
                     self._stream = r_stream
+                    self._link_to_original(node, original_node)
 
             assert isinstance(node, ast.Call)
             return node
@@ -738,9 +748,11 @@ def remap_by_types(
 
                 # See if someone wants to process the call
                 if func_info.processor_function is not None:
+                    original_node = r_node
                     r_stream, r_node = func_info.processor_function(self.stream, r_node)
                     assert isinstance(r_node, ast.AST)
                     self._stream = r_stream
+                    self._link_to_original(r_node, original_node)
 
                 # And if we have a return annotation, then we should record it!
                 # We do it this late because we might be changing the `r_node`
